@@ -5,6 +5,7 @@ import (
 	"strconv"
 	"strings"
 
+	"github.com/runreveal/pql"
 	"github.com/runreveal/pql/parser"
 )
 
@@ -93,6 +94,36 @@ func replayOther(res *Result, rf replayFile, text string) {
 				res.violate(Violation{Property: "C11", Kind: v.Kind, Reason: msg})
 				return
 			}
+		}
+	case "meaning_differs", "layout_changes_output":
+		// decided by TLC on the recorded SQL; reproduced when the code still emits that SQL
+		var sql string
+		var cerr error
+		var opts *pql.CompileOptions
+		if pm, ok := extra["params"].(map[string]any); ok && pm != nil {
+			opts = &pql.CompileOptions{Parameters: map[string]string{}}
+			for k, x := range pm {
+				opts.Parameters[k], _ = x.(string)
+			}
+		}
+		guarded(text, "Compile", func() { sql, cerr = opts.Compile(text) })
+		if obs, _ := v.Observed.(string); cerr == nil && sql == obs {
+			res.violate(Violation{Property: rf.Property, Kind: v.Kind, Reason: "still compiles to the rejected SQL: " + sql})
+		}
+	case "output_not_lexable":
+		var sql string
+		var cerr error
+		guarded(text, "Compile", func() { sql, cerr = pql.Compile(text) })
+		if cerr == nil {
+			if msg := lexableSQL(lexSQL(sql, "std")); msg != "" {
+				res.violate(Violation{Property: rf.Property, Kind: v.Kind, Reason: msg})
+			}
+		}
+	case "valid_expression_not_compiled":
+		var cerr error
+		guarded(text, "Compile", func() { _, cerr = pql.Compile(text) })
+		if cerr != nil {
+			res.violate(Violation{Property: rf.Property, Kind: v.Kind, Reason: firstLine(cerr.Error())})
 		}
 	case "valid_program_not_compiled":
 		if _, _, _, cerr := pc.totalityChecks(text); cerr != nil {
